@@ -14,6 +14,8 @@ CLAIMED = {
             'z3 shows offline evaluate() == README robustness for all sample values and time-stamps'),
     'C02': ('6.C02', 'N symbolic updates cover every monitor state reachable in <=N steps for all values; z3 shows update_i == offline[i] == rho; '
             'plus a one-step inductive obligation from an arbitrary buffer state for the bounded operations'),
+    'C03': ('6.C03', 'pastify() runs on each enumerated bounded-future specification, the rewritten monitor runs on symbolic samples and z3 shows '
+            'update_i == rho(phi, prefix, i-h) for all values and all i>=h, with h computed independently; unit spellings and unbounded-future rejection included'),
 }
 NA = {
     'C14': 'the quantifier ranges over strings and every string is consumed by the ANTLR4 ATN interpreter, which cannot be encoded or '
